@@ -71,22 +71,27 @@ type probeClient struct {
 
 type recorder struct {
 	mu      sync.Mutex
-	events  []event
+	events  map[string][]event // per placement (the client's parent id)
 	started []Probe
 	running int
 }
 
-func (r *recorder) add(e event) {
+func (r *recorder) add(parent string, e event) {
 	r.mu.Lock()
-	r.events = append(r.events, e)
+	if r.events == nil {
+		r.events = map[string][]event{}
+	}
+	r.events[parent] = append(r.events[parent], e)
 	r.mu.Unlock()
 }
 
-func (r *recorder) snapshot() []event {
+func (r *recorder) snapshotOf(parent string) []event {
 	r.mu.Lock()
 	defer r.mu.Unlock()
-	return append([]event{}, r.events...)
+	return append([]event{}, r.events[parent]...)
 }
+
+func (r *recorder) snapshot() []event { return r.snapshotOf("inst") }
 
 func (c *probeClient) Run() error {
 	c.rec.mu.Lock()
@@ -107,10 +112,10 @@ func conv(ps []data.Point) []fix.P {
 	return out
 }
 func (c *probeClient) Points(id string, ps []data.Point) {
-	c.rec.add(event{Kind: "points", Node: id, Pts: conv(ps)})
+	c.rec.add(c.cfg.Parent, event{Kind: "points", Node: id, Pts: conv(ps)})
 }
 func (c *probeClient) EdgePoints(id, parent string, ps []data.Point) {
-	c.rec.add(event{Kind: "edge", Node: id, Parent: parent, Pts: conv(ps)})
+	c.rec.add(c.cfg.Parent, event{Kind: "edge", Node: id, Parent: parent, Pts: conv(ps)})
 }
 
 const (
@@ -140,6 +145,14 @@ func TestPropToldOfForeignChanges(t *testing.T) {
 		mk("k2", pID, "probeKid")
 		mk("g", "k1", "variable")
 		mk("sib", "inst", "variable")
+		// in a third of the cases P is mirrored under a group: two clients, one per
+		// placement, and both must be told everything
+		placements := []string{"inst"}
+		if rapid.IntRange(0, 2).Draw(t, "mirrored") == 0 {
+			mk("grp", "inst", data.NodeTypeGroup)
+			mk(pID, "grp", "probe")
+			placements = append(placements, "grp")
+		}
 		if r, err := in.NodePoints(pID, data.Points{{Type: "description", Text: "start", Time: tick(), Origin: "setup"}, {Type: "tag", Key: "0", Text: "t0", Time: tick(), Origin: "setup"}}); err != nil || r != "" {
 			t.Fatalf("setup points: %q %v", r, err)
 		}
@@ -170,7 +183,7 @@ func TestPropToldOfForeignChanges(t *testing.T) {
 		deadline := time.Now().Add(20 * time.Second)
 		for {
 			rec.mu.Lock()
-			ok := rec.running == 1 && len(rec.started) == 1
+			ok := rec.running == len(placements) && len(rec.started) == len(placements)
 			rec.mu.Unlock()
 			if ok {
 				break
@@ -193,11 +206,16 @@ func TestPropToldOfForeignChanges(t *testing.T) {
 			}
 			seen := false
 			for i := 0; i < 200 && !seen; i++ {
-				for _, e := range rec.snapshot() {
-					if len(e.Pts) == 1 && e.Pts[0].Text == w[0].Text {
-						seen = true
+				n := 0
+				for _, pl := range placements {
+					for _, e := range rec.snapshotOf(pl) {
+						if len(e.Pts) == 1 && e.Pts[0].Text == w[0].Text {
+							n++
+							break
+						}
 					}
 				}
+				seen = n == len(placements)
 				if !seen {
 					time.Sleep(time.Millisecond)
 				}
@@ -209,10 +227,16 @@ func TestPropToldOfForeignChanges(t *testing.T) {
 				t.Fatalf("the running client is never told of foreign writes to its node")
 			}
 		}
-		base := len(rec.snapshot())
+		base := map[string]int{}
+		for _, pl := range placements {
+			base[pl] = len(rec.snapshotOf(pl))
+		}
 
 		nodeTargets := []string{pID, "k1", "k2", "g", "sib", "inst"}
 		edgeTargets := [][2]string{{"k1", pID}, {"k2", pID}, {pID, "inst"}, {"g", "k1"}, {"sib", "inst"}}
+		if len(placements) > 1 {
+			edgeTargets = append(edgeTargets, [2]string{pID, "grp"})
+		}
 		origins := []string{"", pID, "k1", "sib", "user-x"}
 		nb := rapid.IntRange(10, 40).Draw(t, "nbatches")
 		var batches []batch
@@ -291,43 +315,54 @@ func TestPropToldOfForeignChanges(t *testing.T) {
 			}
 		}
 		// wait for the sentinel
-		deadline = time.Now().Add(20 * time.Second)
-		for {
-			evs := rec.snapshot()
-			if n := len(evs); n > 0 && len(evs[n-1].Pts) == 1 && evs[n-1].Pts[0].Text == sentinel {
-				break
+		var got []event
+		for _, pl := range placements {
+			deadline = time.Now().Add(20 * time.Second)
+			for {
+				evs := rec.snapshotOf(pl)
+				if n := len(evs); n > 0 && len(evs[n-1].Pts) == 1 && evs[n-1].Pts[0].Text == sentinel {
+					break
+				}
+				if time.Now().After(deadline) {
+					t.Fatalf("the client of placement %s>P was never told of the final foreign batch (got %d events)\n%s", pl, len(evs), render(evs))
+				}
+				time.Sleep(time.Millisecond)
 			}
-			if time.Now().After(deadline) {
-				t.Fatalf("the client was never told of the final foreign batch (got %d events)\n%s", len(evs), render(evs))
+			g := rec.snapshotOf(pl)[base[pl]:]
+			if pl == "inst" {
+				got = g
 			}
-			time.Sleep(time.Millisecond)
-		}
-		got := rec.snapshot()[base:]
-		// exact sequence, optional entries may be absent
-		gi := 0
-		for _, e := range expected {
-			if gi < len(got) && got[gi].String() == e.ev.String() {
-				gi++
-				continue
+			// exact sequence, optional entries may be absent
+			gi := 0
+			for _, e := range expected {
+				if gi < len(g) && g[gi].String() == e.ev.String() {
+					gi++
+					continue
+				}
+				if e.optional {
+					continue
+				}
+				have := "<nothing>"
+				if gi < len(g) {
+					have = g[gi].String()
+				}
+				t.Fatalf("client of placement %s>P, delivery %d: expected %s\n          got      %s\nall deliveries:\n%s", pl, gi, e.ev, have, render(g))
 			}
-			if e.optional {
-				continue
+			if gi != len(g) {
+				t.Fatalf("the client of placement %s>P was told of something it should not have been: %s\nall deliveries:\n%s", pl, g[gi], render(g))
 			}
-			g := "<nothing>"
-			if gi < len(got) {
-				g = got[gi].String()
-			}
-			t.Fatalf("delivery %d: expected %s\n          got      %s\nall deliveries:\n%s", gi, e.ev, g, render(got))
-		}
-		if gi != len(got) {
-			t.Fatalf("the client was told of something it should not have been: %s\nall deliveries:\n%s", got[gi], render(got))
 		}
 		rec.mu.Lock()
 		restarts := len(rec.started)
-		start := rec.started[0]
+		var start Probe
+		for _, c := range rec.started {
+			if c.Parent == "inst" {
+				start = c
+			}
+		}
 		rec.mu.Unlock()
-		if restarts != 1 {
-			t.Fatalf("client restarted %d times although no structural change was made", restarts-1)
+		if restarts != len(placements) {
+			t.Fatalf("%d clients were constructed for %d placements although no structural change was made", restarts, len(placements))
 		}
 		// folding what it was told (and what it wrote itself) into the start configuration gives what the store holds
 		x := start
@@ -338,7 +373,7 @@ func TestPropToldOfForeignChanges(t *testing.T) {
 						t.Fatalf("MergePoints(%s): %v", b.target, err)
 					}
 				}
-			} else if b.target != "g" {
+			} else if b.target != "g" && !(b.target == pID && b.parent == "grp") {
 				if err := data.MergeEdgePoints(b.target, b.parent, b.pts, &x); err != nil {
 					t.Fatalf("MergeEdgePoints(%s,%s): %v", b.target, b.parent, err)
 				}
@@ -370,6 +405,9 @@ func TestPropToldOfForeignChanges(t *testing.T) {
 			cls = append(cls, o)
 		}
 		sort.Strings(cls)
+		if len(placements) > 1 {
+			cls = append(cls, "mirroredClientNode")
+		}
 		nt := outcomes["outsideSubtree"] && outcomes["ownWrite"] && outcomes["foreignNodePoints"] && outcomes["foreignEdgePoints"]
 		stats.Case(nt, stats.Digest(render(got)), cls...)
 		if nt && stats.WantSample() {
